@@ -95,82 +95,109 @@ def delegation(repo, res):
     res.check("self.units.get_base_equivalent(unit_system)" in calls and "_sanitize_unit_system(unit_system, self)" in calls, "in_base-target", fn.where(), "in_base converts into the unit get_base_equivalent reports for the same unit system argument", rid=r1)
 
 
-def _apply_site(res, rid, key, fn, body, data_stmt_pred, factor_name, offset_name, where):
-    """multiply by factor first, then `if offset:` subtract offset from the same data"""
-    mul_idx = None
-    data_var = None
-    for i, st in enumerate(body):
-        v = data_stmt_pred(st)
-        if v:
-            mul_idx, data_var = i, v
-            break
-    ok = mul_idx is not None
+SUBTRACT_FORMS = (
+    "if __o:\n    np.subtract(__d, __o, __d)",
+    "if __o:\n    __d = __d - __o",
+    "if __o:\n    __d -= __o",
+)
+
+
+def _site(res, rid, key, fn, patterns, mul_pattern, where):
+    """One consumer of a (factor, offset) pair, matched structurally with metavariables (local names are free):
+    both names come from ONE call that yields the pair, the data are multiplied by the factor, and afterwards - under
+    `if offset:` - the offset is subtracted from the same data.  Returns the binding (or None)."""
+    from engine.pat import find, find_all
+
+    b = find_all(fn.node, patterns + [mul_pattern])
+    ok = b is not None
     found = ""
     if ok:
-        sub = None
-        for j in range(mul_idx + 1, len(body)):
-            st = body[j]
-            if isinstance(st, ast.If) and norm(st.test) == offset_name:
-                sub = st
+        subs = []
+        for form in SUBTRACT_FORMS:
+            subs += find(fn.node, form, b)
+        muls = find(fn.node, mul_pattern, b)
+        ok = len(subs) == 1 and len(muls) >= 1 and min(m.lineno for m, _ in muls) < subs[0][0].lineno
+        found = norm(subs[0][0]) if subs else "no `if offset:` subtraction on the multiplied data"
+    if ok:
+        # path rule: on EVERY path that obtains the pair and ends normally, the data are multiplied by the factor and
+        # afterwards the offset is tested (and subtracted when it is non-zero) - unless the path sets the offset to 0
+        from engine.flow import enum_paths
+        from engine.sem import atomise, split_ifexp
+
+        src_lines = {n.lineno for pat_ in patterns for n, _ in find(fn.node, pat_, b) if "get_conversion_factor" in pat_ or "_em_conversion" in pat_}
+        mul_lines = {m.lineno for m, _ in muls}
+        sub_lines = {subs[0][0].body[0].lineno}
+        o, f_ = b["__o"], b["__f"]
+        for p in enum_paths(atomise(split_ifexp(list(fn.body))), limit=20000):
+            if p[-1][0] == "raise":
+                continue
+            stl = [(ev[0], getattr(ev[1], "lineno", None), ev) for ev in p]
+            if not any(k == "stmt" and ln in src_lines for k, ln, _ in stl):
+                continue
+            zeroed = any(k == "stmt" and isinstance(ev[1], ast.Assign) and norm(ev[1]) == f"{o} = 0" for k, ln, ev in stl)
+            i_mul = next((i for i, (k, ln, ev) in enumerate(stl) if k == "stmt" and (ln in mul_lines or (f_ in {x.id for x in ast.walk(ev[1]) if isinstance(x, ast.Name)} and isinstance(ev[1], (ast.AugAssign, ast.Expr, ast.Assign)) and any(isinstance(x, (ast.Mult,)) or (isinstance(x, ast.Call) and norm(x.func) == "np.multiply") for x in ast.walk(ev[1]))))), None)
+            if i_mul is None:
+                ok = False
+                found = "a path converts without multiplying the data by the factor"
                 break
-        ok = sub is not None and len(sub.body) == 1 and not sub.orelse
-        if ok:
-            t = norm(sub.body[0])
-            ok = t in (f"np.subtract({data_var}, {offset_name}, {data_var})", f"{data_var} = {data_var} - {offset_name}", f"{data_var} -= {offset_name}")
-            found = t
-    res.check(ok, key, where, "conversion must be applied as data*factor, then `- offset` on the same data under `if offset`", f"{factor_name} then - {offset_name}", found, rid=rid)
+            tested = [(i, ev) for i, (k, ln, ev) in enumerate(stl) if k == "cond" and norm(ev[1]) == o and i > i_mul]
+            if zeroed:
+                continue
+            if not tested:
+                ok = False
+                found = f"a path multiplies by the factor (line {stl[i_mul][1]}) and never looks at the offset: readings on offset scales (degC, degF, lat/lon) are converted as if they were differences"
+                break
+            if tested[0][1][2] is True and not any(k == "stmt" and ln in sub_lines for k, ln, _ in stl[tested[0][0]:]):
+                ok = False
+                found = "offset tested but not subtracted"
+                break
+    res.check(ok, key, where, "conversion must be applied as data*factor, then `- offset` on the same data under `if offset`, with factor and offset taken from the same call, on every path", "factor then - offset", found or "pair source / multiplication not found", rid=rid)
+    return b if ok else None
 
 
 def apply_idiom(repo, res):
     r2 = res.rule("C03-R2", "apply-idiom agreement of the consumers of (factor, offset)", floor=8)
     arr = repo.mod(ARR)
+    from engine.pat import find, find_all
+    from engine.sem import cnorm
 
-    def pair_source(fn, fac, off):
-        """both names come from the same unpacking of get_conversion_factor / _em_conversion"""
-        srcs = []
-        for n in walk_no_nested(fn.node):
-            if isinstance(n, ast.Assign) and isinstance(n.targets[0], ast.Tuple):
-                flat = norm(n.targets[0])
-                if fac in flat and off in flat:
-                    srcs.append(norm(n.value))
-        return srcs
+    EM = "__new, (__f, __o) = _em_conversion(self.units, __cd, __u)"
+    ORD = "__f, __o = self.units.get_conversion_factor(__new, self.dtype)"
 
     # in_units
     fn = arr.func("unyt_array.in_units")
     res.fn(fn)
-    blk = [n for n in fn.body if isinstance(n, ast.If) and norm(n.test) == "equivalence is None"]
-    if len(blk) != 1:
-        raise AnalysisError(f"{fn.where()}: `if equivalence is None` not found")
-    body = blk[0].body
-    _apply_site(res, r2, "in_units", fn, body, lambda st: "ret" if isinstance(st, ast.Assign) and norm(st.targets[0]) == "ret" and "self.ndview * conversion_factor" in norm(st.value) else None, "conversion_factor", "offset", fn.where())
-    srcs = pair_source(fn, "conversion_factor", "offset")
-    res.check(sorted(srcs) == sorted(["_em_conversion(self.units, conv_data, units)", "self.units.get_conversion_factor(new_units, self.dtype)"]), "in_units:source", fn.where(), "factor and offset come from the same call (EM route or ordinary route)", found=srcs, rid=r2)
+    b = _site(res, r2, "in_units", fn, [EM, ORD], "__d = np.asarray(self.ndview * __f, dtype=___dt)", fn.where())
+    res.check(b is not None, "in_units:source", fn.where(), "factor and offset come from the same call (EM route or ordinary route)", rid=r2)
     # offset zeroed only in the EM arm
-    z = [n for n in ast.walk(fn.node) if isinstance(n, ast.Assign) and norm(n) == "offset = 0"]
-    em_arm = [n for n in ast.walk(fn.node) if isinstance(n, ast.If) and norm(n.test) == "any(conv_data)"]
-    ok = len(em_arm) == 1 and all(any(x is zz for x in ast.walk(ast.Module(body=em_arm[0].body, type_ignores=[]))) for zz in z)
-    res.check(ok, "in_units:offset-zeroed-only-em", fn.where(), "an offset may be discarded only on the EM route (no EM unit has an offset)", rid=r2)
-    # the result carries new_units
-    ctor = [c for c in ast.walk(fn.node) if isinstance(c, ast.Call) and norm(c.func) == "type(self)"]
-    res.check(bool(ctor) and all([norm(a) for a in c.args[:2]] == ["ret", "new_units"] for c in ctor), "in_units:result", fn.where(), "the converted data are wrapped with the target unit", rid=r2)
+    if b is not None:
+        z = [n for n, _ in find(fn.node, "__o = 0", b)]
+        em_calls = [n for n, _ in find(fn.node, EM, b)]
+        # (pattern matches are nodes of a canonical copy: positions are compared by line)
+        within = lambda node, body: bool(body) and body[0].lineno <= node.lineno <= body[-1].end_lineno
+        em_arm = [n for n in ast.walk(fn.node) if isinstance(n, ast.If) and within(em_calls[0], n.body)] if em_calls else []
+        inner = min(em_arm, key=lambda n: n.end_lineno - n.lineno) if em_arm else None
+        ok = inner is not None and all(within(zz, inner.body) for zz in z)
+        res.check(ok, "in_units:offset-zeroed-only-em", fn.where(), "an offset may be discarded only on the EM route (no EM unit has an offset)", rid=r2)
+        ctor = [c for c in ast.walk(fn.node) if isinstance(c, ast.Call) and norm(c.func) == "type(self)"]
+        res.check(bool(ctor) and all([norm(a_) for a_ in c.args[:2]] == [b["__d"], b["__new"]] for c in ctor), "in_units:result", fn.where(), "the converted data are wrapped with the target unit", rid=r2)
 
     # convert_to_units
     fn = arr.func("unyt_array.convert_to_units")
     res.fn(fn)
-    blk = [n for n in fn.body if isinstance(n, ast.If) and norm(n.test) == "equivalence is None"]
-    body = blk[0].body
-    _apply_site(res, r2, "convert_to_units", fn, body, lambda st: "values" if isinstance(st, ast.AugAssign) and norm(st.target) == "values" and isinstance(st.op, ast.Mult) and norm(st.value) == "conv_factor" else None, "conv_factor", "offset", fn.where())
-    vdef = [norm(n.value) for n in body if isinstance(n, ast.Assign) and norm(n.targets[0]) == "values"]
-    res.check(vdef == ["self.d"], "convert_to_units:view", fn.where(), "the in-place route operates on a view of the array's own buffer", found=vdef, rid=r2)
-    us = [n for n in body if isinstance(n, ast.Assign) and norm(n.targets[0]) == "self.units"]
-    res.check(len(us) == 1 and norm(us[0].value) == "new_units", "convert_to_units:unit", fn.where(), "the array's unit becomes the target unit", rid=r2)
+    b = _site(res, r2, "convert_to_units", fn, [EM, ORD, "__d = self.d"], "__d *= __f", fn.where())
+    res.check(b is not None, "convert_to_units:view", fn.where(), "the in-place route operates on a view of the array's own buffer", rid=r2)
+    if b is not None:
+        us = [n for n in ast.walk(fn.node) if isinstance(n, ast.Assign) and norm(n.targets[0]) == "self.units"]
+        res.check(len(us) == 1 and norm(us[0].value) == b["__new"], "convert_to_units:unit", fn.where(), "the array's unit becomes the target unit", rid=r2)
 
     # in_base
     fn = arr.func("unyt_array.in_base")
     res.fn(fn)
-    _apply_site(res, r2, "in_base", fn, fn.body, lambda st: "ret" if isinstance(st, ast.Assign) and norm(st.targets[0]) == "ret" and norm(st.value) in ("self.v * conv", "self.value * conv") else None, "conv", "offset", fn.where())
-    rets = [n for n in fn.body if isinstance(n, ast.Return)]
-    res.check(len(rets) == 1 and norm(rets[0].value) == "type(self)(ret, to_units)", "in_base:result", fn.where(), "in_base wraps the converted data with the target unit", rid=r2)
+    b = _site(res, r2, "in_base", fn, ["__new, (__f, __o) = _em_conversion(__u0, __cd, unit_system=__us)", "__f, __o = self.units.get_conversion_factor(__new, self.dtype)"], "__d = self.value * __f", fn.where())
+    if b is not None:
+        rets = [n for n in fn.body if isinstance(n, ast.Return)]
+        res.check(len(rets) == 1 and cnorm(rets[0].value) == f"type(self)({b['__d']}, {b['__new']})", "in_base:result", fn.where(), "in_base wraps the converted data with the target unit", rid=r2)
 
     # ufunc second operand: offset may be ignored only for delta_ left units (guard raises otherwise)
     a = UfuncAnchors(repo)
